@@ -341,6 +341,13 @@ impl<'p> ThunkData<'p> {
     }
 
     #[inline]
+    pub(super) fn restore_pending(&self, pending: PendingThunk<'p>) {
+        let mut state = self.state.borrow_mut();
+        assert!(matches!(*state, ThunkState::InProgress));
+        *state = ThunkState::Pending(pending);
+    }
+
+    #[inline]
     pub(super) fn get_value(&self) -> Option<ValueData<'p>> {
         match *self.state.borrow() {
             ThunkState::Done(ref value) => Some(value.clone()),
@@ -368,6 +375,7 @@ impl GcTrace for ThunkState<'_> {
     }
 }
 
+#[derive(Clone)]
 pub(super) enum PendingThunk<'p> {
     Expr {
         expr: &'p ir::Expr<'p>,
